@@ -55,6 +55,10 @@ pub struct WorldParams {
     pub same_name_dirs16: u64,
     /// restrict every table to at most this many rows (shrinker)
     pub row_cap: Option<usize>,
+    /// also write and register a table `kw` whose column names are SQL keywords (`user`,
+    /// `true`, `order`); it is not offered to the statement generator (bare keyword names do
+    /// not parse as columns), checks that want it add statements with quoted identifiers
+    pub keyword_table: bool,
 }
 
 pub fn make_config() -> ExecutionConfig {
@@ -92,11 +96,34 @@ pub fn build(rng: &mut Rng, p: &WorldParams) -> World {
         tables.push(t);
         layouts.push(lay);
     }
+    let mut extra: Vec<(datagen::Table, datagen::ParquetLayout)> = Vec::new();
+    if p.keyword_table {
+        let mut kr = rng.fork(0x6b77);
+        let rows = 30 + kr.usize(170);
+        let t = datagen::Table {
+            name: "kw".into(),
+            cols: vec![
+                datagen::ColSpec { name: "id".into(), ty: datagen::Ty::I64, nulls16: 0, unique: true },
+                datagen::ColSpec { name: "user".into(), ty: datagen::Ty::I64, nulls16: 1, unique: false },
+                datagen::ColSpec { name: "true".into(), ty: datagen::Ty::Bool, nulls16: 2, unique: false },
+                datagen::ColSpec { name: "order".into(), ty: datagen::Ty::I64, nulls16: 0, unique: false },
+            ],
+            data: vec![
+                datagen::ColData::I64((0..rows as i64).map(Some).collect()),
+                datagen::ColData::I64((0..rows).map(|_| if kr.below(16) < 1 { None } else { Some(kr.range(0, 9)) }).collect()),
+                datagen::ColData::Bool((0..rows).map(|_| if kr.below(16) < 2 { None } else { Some(kr.coin()) }).collect()),
+                datagen::ColData::I64((0..rows).map(|_| Some(kr.range(0, 20))).collect()),
+            ],
+            rows,
+        };
+        let lay = datagen::gen_layout(&mut kr, t.rows, p.max_files);
+        extra.push((t, lay));
+    }
     // node 0 writes; other nodes get byte-identical copies under their own mount
     let mut nodes = Vec::new();
     let mut node0_files: Vec<(String, Vec<PathBuf>)> = Vec::new();
     let d0 = root.join("node0").join("data");
-    for (t, lay) in tables.iter().zip(&layouts) {
+    for (t, lay) in tables.iter().zip(&layouts).chain(extra.iter().map(|(t, l)| (t, l))) {
         let files = datagen::write_parquet(t, &d0.join(&t.name), lay).expect("write parquet");
         node0_files.push((t.name.clone(), files));
     }
@@ -134,7 +161,7 @@ pub fn build(rng: &mut Rng, p: &WorldParams) -> World {
         nodes.push(NodeData { files: files_here, ctx: Arc::new(ctx), address: format!("10.7.0.{}:7777", n + 1), node_id: n as u64 });
     }
     let mut mem = ExecutionContext::with_config(make_config());
-    for t in &tables {
+    for t in tables.iter().chain(extra.iter().map(|(t, _)| t)) {
         mem.register_table(&t.name, t.schema(), t.one_batch());
     }
     World { root, tables, layouts, nodes, single, mem }
